@@ -361,7 +361,8 @@ def gen_mod_spec(rng: random.Random, allow: Optional[List[str]] = None) -> dict:
     if scheme == "pi4qpsk":
         return {"scheme": scheme, "gray": rng.random() < 0.5}
     if scheme == "dpsk":
-        spec = {"scheme": scheme, "order": rng.choice([2, 4, 8, 16]), "gray": rng.random() < 0.5, "via": rng.choice(["order", "class"])}
+        spec = {"scheme": scheme, "order": rng.choice([2, 4, 8, 16]), "gray": rng.random() < 0.5, "via": rng.choice(["order", "class"]),
+                "label_kw": rng.choice(["gray_coding", "gray_coding", "gray_coded"]), "size_kw": rng.choice(["order", "order", "bits_per_symbol"])}
         if spec["via"] == "class" and spec["order"] in (2, 4):
             spec["gray"] = spec["order"] == 4  # DBPSK is binary-labelled, DQPSK Gray-labelled by definition of the classes
         return spec
@@ -414,9 +415,15 @@ def build_modem(spec: dict, via_registry: bool = False):
                 return (R.create("dbpsk", "modulator"), R.create("dbpsk", "demodulator")) if via_registry else (M.DBPSKModulator(), M.DBPSKDemodulator())
             if spec.get("via") == "class" and spec["order"] == 4:
                 return (R.create("dqpsk", "modulator"), R.create("dqpsk", "demodulator")) if via_registry else (M.DQPSKModulator(), M.DQPSKDemodulator())
+            # every documented spelling of the options: order= | bits_per_symbol=, gray_coding= | gray_coded=
+            kw = {spec.get("label_kw", "gray_coding"): spec["gray"]}
+            if spec.get("size_kw") == "bits_per_symbol":
+                kw["bits_per_symbol"] = spec["order"].bit_length() - 1
+            else:
+                kw["order"] = spec["order"]
             if via_registry:
-                return R.create("dpskmodulator", "modulator", order=spec["order"], gray_coding=spec["gray"]), R.create("dpskdemodulator", "demodulator", order=spec["order"], gray_coding=spec["gray"])
-            return M.DPSKModulator(order=spec["order"], gray_coding=spec["gray"]), M.DPSKDemodulator(order=spec["order"], gray_coding=spec["gray"])
+                return R.create("dpskmodulator", "modulator", **kw), R.create("dpskdemodulator", "demodulator", **kw)
+            return M.DPSKModulator(**kw), M.DPSKDemodulator(**kw)
         if s == "oqpsk":
             if via_registry:
                 return R.create("oqpsk", "modulator", normalize=spec["normalize"]), R.create("oqpsk", "demodulator", normalize=spec["normalize"])
